@@ -30,7 +30,7 @@ claim("C05", "DESIGN.md 5/C05 and 9", "Lean 4 theorems (shape; equivariance unde
       "(any permutation of the cell positions and/or a new shape) to every input gives the original outcome rearranged in exactly the same way (same error, or the same cells at the new "
       "positions under the new shape), for all 31 commands incl. the whole-array statistics (min, max, mean, standard deviation, mean-to-mid points: proved invariant under permutation). "
       "The real bodies are tied to the model by the correspondence on rank 1-3 shapes, grids enumerating all value pairs, and twin runs (permutation, reshape, Fortran layout) on the implementation. "
-      "MPilot.C05T (Props/C05Tile): the whole-array statistics of a field repeated k times are those of the field (minL_rep, maxL_rep, meanL_rep, varL_rep), hence Normalize, NormalizeZScore and CvtToFuzzyZScore give the repeated result on the repeated field - nothing depends on how large a grid is (on the implementation: the tiled-field twin, 10^4-10^5 cells, all commands). Memory layout (strides) is not in the model: decided by the layout twin only. In the model a command is a function of its own inputs and parameters (no program state); on the implementation "
+      "MPilot.C05T (Props/C05Tile): the whole-array statistics of a field repeated k times are those of the field (minL_rep, maxL_rep, meanL_rep, varL_rep), hence every statistic-driven command - Normalize, NormalizeZScore, CvtToFuzzyZScore, NormalizeMeanToMid, CvtToFuzzyMeanToMid (mtmStats_rep: the five statistics, zeros ignored or not), NormalizeCurveZScore, CvtToFuzzyCurveZScore, CvtToFuzzy with thresholds given or taken from the data - and the curve commands give the repeated result on the repeated field (normalize_tile, zscore_commands_tile, meanToMid_commands_tile, curveZScore_commands_tile, cvtToFuzzy_tile, curve_commands_tile): nothing depends on how large a grid is (on the implementation: the tiled-field twin, 10^4-10^5 cells, all commands). Memory layout (strides) is not in the model: decided by the layout twin only. In the model a command is a function of its own inputs and parameters (no program state); on the implementation "
       "this is checked by the pipeline twin and the shared-program twin (the same command as the n-th of one long-lived Program that evaluated other shapes and types before it).",
       TB)
 claim("C06", "DESIGN.md 5/C06", "Lean 4 theorems (definitions, algebra, order invariance) + exhaustive-lattice correspondence + reference/algebra oracles",
